@@ -167,19 +167,110 @@ def page_hinkley(ctx):
         site = "PageHinkley.update"
         ctx.ob("FRM", site, "running mean (direction=%s)" % d, "_mean" in fin and T.same(fin["_mean"], m1), q.short(fin.get("_mean", const(0)), 160))
         ctx.ob("FRM", site, "cumulative sum uses the updated mean (direction=%s)" % d, "_sum" in fin and T.same(fin["_sum"], s1), q.short(fin.get("_sum", const(0)), 200))
-        ctx.ob("FRM", site, "running minimum (direction=%s)" % d, fin.get("_min") == mn1, q.short(fin.get("_min", const(0)), 200))
-        ctx.ob("FRM", site, "running maximum (direction=%s)" % d, fin.get("_max") == mx1, q.short(fin.get("_max", const(0)), 200))
+        # the extremes: the documented update, or one that agrees with it whenever min <= max (both start at 0, the minimum only
+        # decreases and the maximum only increases, so min <= max holds at every call: established below by cells)
+        cells = None
+        if fin.get("_min") is not None and fin.get("_max") is not None and (fin.get("_min") != mn1 or fin.get("_max") != mx1):
+            cells = _ph_cells(ctx, [fin["_min"], fin["_max"], mn1, mx1, s1, m1], s1)
+        def _agree(got, want_):
+            if got is None:
+                return False
+            if got == want_:
+                return True
+            if not cells:
+                return False
+            try:
+                return all(q.eval_cell(got, env_) == q.eval_cell(want_, env_) for env_ in cells)
+            except q.Undecided:
+                return False
+        ctx.ob("FRM", site, "running minimum (direction=%s)" % d, _agree(fin.get("_min"), mn1), q.short(fin.get("_min", const(0)), 200))
+        ctx.ob("FRM", site, "running maximum (direction=%s)" % d, _agree(fin.get("_max"), mx1), q.short(fin.get("_max", const(0)), 200))
         ph = (s1 - mn1) if d == "positive" else (mx1 - s1)
         want = T.mk_cmp(">", ph, A("threshold") * m1)
         ds = [e for e in tr.stores("_drift_state") if e.value == const("drift")]
         ctx.ob("ROLE", site, "drift store (direction=%s)" % d, len(ds) == 1, "found %d" % len(ds))
         for e in ds:
             ok = any(_same_pred(g, want) for g in guards(e))
+            if not ok and cells:
+                for g in guards(e):
+                    if q.is_cmp(g) is None or not T.mentions(g, lambda z: z == ("attr", "threshold")):
+                        continue
+                    try:
+                        cs = _ph_cells(ctx, [g, want, s1, m1], s1)
+                        if cs and all(bool(q.eval_cell(g, env_)) == bool(q.eval_cell(want, env_)) for env_ in cs):
+                            ok = True
+                    except q.Undecided:
+                        pass
             ctx.ob("TAB-direction", site, "direction=%s: alarm iff %s > threshold*mean" % (d, "sum-min" if d == "positive" else "max-sum"), ok,
                    "guards: %s" % "; ".join(q.short(g, 100) for g in guards(e)[-3:]), e)
             ctx.ob("GRD", site, "alarm only after burn-in (direction=%s)" % d, q.has_guard(e, S("s > A_burn_in", {"s": ssr})), "", e)
         ctx.ob("TNT-obs", site, "statistics use the observation of this call (direction=%s)" % d,
                T.mentions(fin["_sum"], lambda a: a == ("param", "X")), "")
+
+
+def _cell_atoms(t, acc):
+    """the atoms a cell must give a value to: those of the polynomial parts, looking through gated phis and boolean structure"""
+    for part in (t.num, t.den):
+        for m, _c in part:
+            for x, _pw in m:
+                k = x[0]
+                if k == "const":
+                    continue
+                if k == "ite":
+                    for y in x[1:4]:
+                        _cell_atoms(y, acc)
+                elif k == "cmp":
+                    _cell_atoms(x[2], acc)
+                elif k in ("and", "or"):
+                    for y in x[1]:
+                        _cell_atoms(y, acc)
+                elif k == "not":
+                    _cell_atoms(x[1], acc)
+                elif k == "call" and x[1] in ("max", "min") and not x[3]:
+                    for y in x[2]:
+                        _cell_atoms(y, acc)
+                else:
+                    acc.add(x)
+
+
+def _ph_cells(ctx, terms, s1):
+    """Environments (atom -> number) that realise every ordering of (this call's cumulative sum, _min, _max) with _min <= _max,
+    at three settings of the other quantities; None when the base of the invariant (reset leaves _min = _max) does not hold.
+    Comparisons between these three values are all the extremes' update looks at, so a finite set of orderings decides it."""
+    from fractions import Fraction as F
+    tr0 = ctx.trace("PageHinkley", "reset")
+    at = tr0.final.attrs if tr0.final is not None else {}
+    if at.get("_min") is None or at.get("_min") != at.get("_max") or not T.is_pure_const(at["_min"]):
+        return None
+    acc = set()
+    for t in terms:
+        _cell_atoms(t, acc)
+    special = {("attr", "_sum"), ("attr", "_min"), ("attr", "_max")}
+    others = sorted((a for a in acc if a not in special), key=T.akey)
+    grid = [F(-1), F(-1, 2), F(0), F(1, 2), F(1)]
+    out = []
+    for k, (base_, step) in enumerate(((F(0), F(0)), (F(1), F(1, 2)), (F(-2), F(1, 4)))):
+        env0 = {}
+        for i, a in enumerate(others):
+            if a == ("attr", "_samples_since_reset"):
+                env0[a] = k            # n = 1, 2, 3
+            elif a == ("attr", "threshold"):
+                env0[a] = (F(1), F(2), F(1, 2))[k]
+            elif a == ("attr", "delta"):
+                env0[a] = (F(0), F(3, 4), F(7, 4))[k]   # not multiples of the grid step: a threshold shifted by delta shows
+            else:
+                env0[a] = base_ + step * (i % 3) if k else F(1)
+        off = q.eval_cell(s1 - A("_sum"), env0)      # s1 = _sum + (x - mean' - delta): linear in _sum
+        for s in grid:
+            for lo in grid:
+                for hi in grid:
+                    if lo <= hi:
+                        env = dict(env0)
+                        env[("attr", "_sum")] = s - off
+                        env[("attr", "_min")] = lo
+                        env[("attr", "_max")] = hi
+                        out.append(env)
+    return out
 
 
 def _same_pred(g, want):
